@@ -20,6 +20,30 @@ ASSUMPTIONS = ["as C01; reachability and depth are taken over the tables of ever
 PID = "C04"
 
 
+def aim_keep_at_line_tag(rng, case):
+    """Turn a generated case into the scenario `--keep` against a dependency line's own tag: some line `p -> m` gets
+    `-t beta`, m is first set up in a version other than the beta one, then p is requested with --keep."""
+    g = case["graph"]
+    beta = g["tags"]["beta"]
+    cands = []
+    for d in g["decls"]:
+        for seg in d["table"]:
+            for a in ([seg] if "if" not in seg else seg["if"] + seg["else"]):
+                if a.get("a") == "dep" and a["name"] in beta:
+                    others = [x["ver"] for x in g["decls"] if x["name"] == a["name"] and x["ver"] != beta[a["name"]]]
+                    if others:
+                        cands.append((d, a, others))
+    if not cands:
+        return case
+    d, a, others = rng.choice(cands)
+    a["tags"] = ["beta"]
+    a["just"] = False
+    inexact = case["history"][0]["inexact"]
+    mk = lambda name, ver, keep: {"op": "setup", "name": name, "ver": ver, "keep": keep, "max_depth": -1, "tags": [], "inexact": inexact}
+    case["history"] = [mk(a["name"], {"v": rng.choice(others)}, False), mk(d["name"], {"v": d["ver"]}, True)] + case["history"][:2]
+    return case
+
+
 def run(ctx):
     stats = {}
     L.evaluate(ctx, PID, L.load_corpus(PID), stats)
@@ -27,6 +51,7 @@ def run(ctx):
     done = 0
     while done < target and not ctx.out_of_time():
         batch = [L.gen_case(ctx.rng, nreq=ctx.rng.randint(2, 5)) for _ in range(48)]
+        batch = [aim_keep_at_line_tag(ctx.rng, c) if ctx.rng.random() < 0.15 else c for c in batch]
         L.evaluate(ctx, PID, batch, stats)
         done += sum(len(c["history"]) for c in batch)
     for k, v in sorted(stats.items()):
